@@ -399,7 +399,7 @@ fn space_progress(cs: &mut Vec<Case>, class: &'static str) {
 // D. dropping a future at every stage of its life, at every position in the wait list
 fn fam_futdrop<T: Payload>(c: &Case, cx: &mut Ctx) -> Outcome {
     let recv_kind = c.a % 2 == 0;
-    let stage = c.b % 5; // 0 never polled, 1 pending, 2 claimed by a peer, 3 completed but not read, 4 completed
+    let stage = c.b % 6; // 0 never polled, 1 pending, 2 claimed by a peer, 3 completed but not read, 4 completed, 5 dropped while close() is terminating the waiters
     let before = (c.c % 3) as usize; // waiters registered before the future
     let after = ((c.c / 3) % 2) as usize; // and after it
     let mut sc = Scn::<T>::new(c.cap, c.d & 4 == 4, c.seed);
@@ -418,7 +418,7 @@ fn fam_futdrop<T: Payload>(c: &Case, cx: &mut Ctx) -> Outcome {
         }
         others.push(w);
     }
-    let sname = ["never-polled", "pending", "claimed", "completed-unread", "completed"][stage as usize];
+    let sname = ["never-polled", "pending", "claimed", "completed-unread", "completed", "while-close-terminates"][stage as usize];
     let mut fut_registered = false;
     if stage == 0 {
         sc.mexec(if recv_kind { Op::ARecvDrop(0) } else { Op::ASendDrop(0) });
@@ -490,6 +490,28 @@ fn fam_futdrop<T: Payload>(c: &Case, cx: &mut Ctx) -> Outcome {
                 sc.expect(matches!(pr, Some(Res::True) | Some(Res::Val(_))), "C15", || format!("the peer that had claimed the future must complete normally, got {:?}", pr));
                 others.push(p);
             }
+            5 => {
+                // a closer is frozen in the middle of terminating the waiters (inside the channel lock in this
+                // code base) while the owner drops its pending future: the drop has to come out consistent whatever
+                // it finds - on this tree it simply waits for the lock. The helper releases the closer when the
+                // dropping thread is seen waiting for a peer, when the drop has returned, or after a few ms (a
+                // progress aid, not a verdict).
+                let prole = sc.role_of(others.len());
+                fp::arm(prole, TERM_ENTER);
+                let p = sc.spawn(if c.d & 1 == 1 { Side::S } else { Side::R }, false, vec![if c.d & 1 == 1 { Op::CloseS } else { Op::CloseR }]);
+                if !sc.wait_arrived(p, TERM_ENTER) {
+                    return sc.finish(cx.lin_budget, &mut cx.obs, &mut cx.samples, &mut cx.lin_states);
+                }
+                let h0 = sc.hits0;
+                let dropped = Arc::new(AtomicBool::new(false));
+                let d2 = dropped.clone();
+                let rel = release_when(prole, TERM_ENTER, Duration::from_millis(if cfg!(miri) { 200 } else { 4 }), move || fp::hits_delta(&h0)[ABW_ENTER as usize] > abw0 || d2.load(Ordering::Acquire));
+                if recv_kind { sc.main.rfut_drop() } else { sc.main.sfut_drop() }
+                dropped.store(true, Ordering::Release);
+                rel.join().unwrap();
+                sc.join(p);
+                others.push(p);
+            }
             3 => {
                 serve_before(&mut sc);
                 let p = sc.spawn(if recv_kind { Side::S } else { Side::R }, c.d & 1 == 1, vec![peer_op]);
@@ -523,7 +545,7 @@ fn fam_futdrop<T: Payload>(c: &Case, cx: &mut Ctx) -> Outcome {
 fn space_futdrop(cs: &mut Vec<Case>, class: &'static str) {
     for cap in [Some(0), Some(1)] {
         for a in 0..2 {
-            for b in 0..5 {
+            for b in 0..6 {
                 for c in 0..6 {
                     for d in 0..6 {
                         cs.push(Case { fam: "futdrop", class, cap, a, b, c, d, seed: 0 });
